@@ -1092,13 +1092,14 @@ def pick_presentation(fmt, rng, p_plain=0.5):
 
 class Pair:
     """one correspondence case"""
-    __slots__ = ('img', 'sizes', 'ctag', 'trace', 'poke', 'kind', 'feed', 'ctor', 'allowed', 'expected', 'companion')
+    __slots__ = ('img', 'sizes', 'ctag', 'trace', 'poke', 'kind', 'feed', 'ctor', 'allowed', 'expected', 'companion', 'after_error')
 
     def __init__(self, img, sizes, ctag, trace=False, poke=False, kind='insp', feed='bytes', ctor=None,
                  allowed=None, expected=None):
         self.img, self.sizes, self.ctag, self.trace, self.poke, self.kind = img, sizes, ctag, trace, poke, kind
         self.feed, self.ctor, self.allowed, self.expected = feed, ctor or {}, allowed, expected
         self.companion = None
+        self.after_error = 'stop'          # 'continue': the caller catches eat_chunk errors and keeps feeding (request inspk)
 
     def case(self):
         c = {'kind': self.kind, 'fmt': self.img.fmt, 'content': self.img.field, 'sizes': pack_sizes(self.sizes),
@@ -1109,6 +1110,8 @@ class Pair:
             c['ctor'] = self.ctor
         if self.poke:
             c['poke'] = 1
+        if self.after_error != 'stop':
+            c['after_error'] = self.after_error
         if self.companion:
             c['companion'] = {'content': content_field(self.companion[0]), 'sizes': pack_sizes(self.companion[1]),
                               'mode': self.companion[2]}
@@ -1307,7 +1310,8 @@ def run_impl(pair, rng=None):
         return run_wrap_x(pair.allowed, pair.expected, pair.img.data, pair.sizes, pair.companion)
     q = poker(rng) if (pair.poke and rng is not None) else None
     try:
-        return run_insp_x(pair.img.fmt, pair.img.data, pair.sizes, pair.trace, q, pair.feed, pair.ctor, pair.companion)
+        return run_insp_x(pair.img.fmt, pair.img.data, pair.sizes, pair.trace, q, pair.feed, pair.ctor, pair.companion,
+                          pair.after_error)
     except Exception as e:                # e.g. a property that raises outside eat_chunk
         return 'CRASH:%s:%s' % (type(e).__name__, e)
 
